@@ -100,6 +100,10 @@ Definition mval_falsy (v : mval) : bool :=
 Definition md_get (field : matchdict -> option mval) (md : matchdict) (dflt : mval) : mval :=
   match field md with Some v => v | None => dflt end.
 
+(* `matchdict.get(key) or default`: the default when the key is absent (None) or its value is falsy *)
+Definition omval_or (o : option mval) (dflt : mval) : mval :=
+  match o with Some v => if mval_falsy v then dflt else v | None => dflt end.
+
 (* webob BaseRequest.path_info on a present PATH_INFO: the WSGI (latin-1) text read as UTF-8
    (absent key = KeyError is the [None] of q_path_info) *)
 Definition webob_path_info (raw : text) : result text := rbind (latin1_encode_r raw) utf8_decode_r.
